@@ -24,7 +24,12 @@ HAS_OFF end offset below the entry's start gave a negative length and `data[off:
 with fix 10 the slices `entries[count:]`, `ends[count:]` and the index `ends[count-1]` are further possible
 faults, none reachable), and the model's recursion budget is never
 exhausted: the fuel `len(data)+1` handed out by `parseJSONB` is provably enough, because every child
-slice starts after the 8 bytes of header and first JEntry. -/
+slice starts after the 8 bytes of header and first JEntry.
+SCOPE: this is a statement about index / slice faults and about the MODEL's recursion; it says nothing about the depth
+of Go's call stack.  ParseJSONB recurses once per nesting level (one level costs 8 input bytes and ~0.5 KiB of stack):
+within the property's 256 KiB inputs that is at most 32 768 levels / 17 MB of stack and returns (family `resource`,
+case `decode 3802`); a 16 MiB document of pure nesting exceeds Go's 1 GB stack limit and dies with an unrecoverable
+"stack overflow" (REVIEW.md F4) — outside C10's quantifier, not covered by this theorem. -/
 theorem C10_total_parseJSONB (bs : Bytes) : ∃ r, parseJSONB bs = .ok r := parseJSONB_total bs
 
 /-- Work bound, part 1 (fix 10: the count is bounded by the input, not by a constant): a container whose
